@@ -2,6 +2,7 @@
 // Generated pipeline terms; every edge is erased to unique_any_sender<P> so that the *real* adaptors
 // are composed at run time; a reference interpreter computes the set of admissible completions.
 #include "rt.hpp"
+#include "quarantine.hpp"    // poisoning quarantine allocator: use-after-free oracle for the whole process
 
 #include <pika/execution.hpp>
 #include <pika/semaphore.hpp>
@@ -438,10 +439,16 @@ struct TermRecv
 {
     using is_receiver = void;
     Terminal* t;
+    // start_detached-like mode: the completion signal destroys the operation state (which contains this receiver); nothing
+    // of the operation may be touched by the adaptors afterwards
+    std::shared_ptr<void>* self_destroy = nullptr;
     void set_value(P p) && noexcept
     {
-        if (t->signals.fetch_add(1) == 0) { t->kind = 0; t->v = p.v; }
-        t->done.release();
+        Terminal* tt = t;
+        auto* sd = self_destroy;
+        if (tt->signals.fetch_add(1) == 0) { tt->kind = 0; tt->v = p.v; }
+        if (sd) sd->reset();
+        tt->done.release();
     }
     void set_error(std::exception_ptr ep) && noexcept
     {
@@ -449,13 +456,19 @@ struct TermRecv
         try { std::rethrow_exception(ep); }
         catch (TestErr const& te) { e = te.e; }
         catch (...) { e = -2; }
-        if (t->signals.fetch_add(1) == 0) { t->kind = 1; t->v = e; }
-        t->done.release();
+        Terminal* tt = t;
+        auto* sd = self_destroy;
+        if (tt->signals.fetch_add(1) == 0) { tt->kind = 1; tt->v = e; }
+        if (sd) sd->reset();
+        tt->done.release();
     }
     void set_stopped() && noexcept
     {
-        if (t->signals.fetch_add(1) == 0) { t->kind = 2; t->v = 0; }
-        t->done.release();
+        Terminal* tt = t;
+        auto* sd = self_destroy;
+        if (tt->signals.fetch_add(1) == 0) { tt->kind = 2; tt->v = 0; }
+        if (sd) sd->reset();
+        tt->done.release();
     }
 };
 
@@ -464,6 +477,7 @@ struct Case
     RtConfig cfg;
     std::unique_ptr<Term> term;
     int terminal = 0;    // 0 connect/start + own receiver, 1 sync_wait (only if the term cannot stop)
+    bool self_destroy = false;    // terminal 0: the receiver destroys the (heap allocated) operation state inside its completion signal, like start_detached
     long long avoided = 0;
 };
 
@@ -502,6 +516,7 @@ static Case decode(tape_t const& tape)
     c.avoided = g.avoided;
     c.terminal = t.weighted({3, 1});
     if (c.terminal == 1 && may_stop(*c.term)) c.terminal = 0;    // sync_wait has no way to report stopped
+    c.self_destroy = c.terminal == 0 && c.cfg.init_threads == 0;    // (derived from an existing draw: older replay tapes keep their meaning)
     return c;
 }
 
@@ -510,7 +525,7 @@ static std::string describe(tape_t const& tape)
     Case c = decode(tape);
     std::ostringstream os, ts;
     describe_term(*c.term, ts);
-    os << "{\"workers\": " << c.cfg.workers << ", \"policy\": \"" << policies[c.cfg.policy] << "\", \"terminal\": \"" << (c.terminal ? "sync_wait" : "connect+start") << "\", \"term\": "
+    os << "{\"workers\": " << c.cfg.workers << ", \"policy\": \"" << policies[c.cfg.policy] << "\", \"terminal\": \"" << (c.terminal ? "sync_wait" : c.self_destroy ? "connect+start, op state destroyed inside the completion signal" : "connect+start") << "\", \"term\": "
        << jstr(ts.str()) << ", \"admissible\": [";
     bool first = true;
     for (auto const& r : eval(*c.term, 0))
@@ -527,6 +542,7 @@ static Outcome run(tape_t const& tape)
     Case c = decode(tape);
     restrict_cpus(c.cfg.cpus);
     install_hook(c.cfg);
+    vf::quarantine::enabled().store(true);
     start_runtime(c.cfg);
     ResSet admissible = eval(*c.term, 0);
     Outcome out;
@@ -554,8 +570,11 @@ static Outcome run(tape_t const& tape)
         }
         else
         {
-            auto os = ex::connect(build(*c.term, 0), TermRecv{&term});
-            ex::start(os);
+            using OS = decltype(ex::connect(build(*c.term, 0), TermRecv{&term}));
+            std::shared_ptr<void> holder;
+            OS* raw = new OS(ex::connect(build(*c.term, 0), TermRecv{&term, c.self_destroy ? &holder : nullptr}));
+            holder = std::shared_ptr<void>(raw, [](void* p) { delete static_cast<OS*>(p); });
+            ex::start(*raw);
             G().awaited_signal_missing = [&] { return term.signals.load() == 0; };
             {
                 MainWaitingForSignal mw;
@@ -571,6 +590,7 @@ static Outcome run(tape_t const& tape)
             signals = term.signals.load();
             got_kind = term.kind;
             got_v = term.v;
+            holder.reset();
         }
     }
     {
@@ -592,6 +612,11 @@ static Outcome run(tape_t const& tape)
         else if (g_live.load() != 0) out = Outcome::fail("payload_leak", std::to_string(g_live.load()) + " payload objects still alive after the operation state and all senders were destroyed (of " + std::to_string(g_constructed.load()) + " constructed)");
         else if (g_leaf_ops_live.load() != 0) out = Outcome::fail("opstate_leak", std::to_string(g_leaf_ops_live.load()) + " leaf operation states were never destroyed");
         else if (g_leaf_touch_after_complete.load() != 0) out = Outcome::fail("opstate_use_after_destroy", "a leaf operation state was completed after its destruction");
+        else
+        {
+            std::string qc = vf::quarantine::check();
+            if (!qc.empty()) out = Outcome::fail("write_after_free", qc + (c.self_destroy ? " (the terminal receiver destroyed the operation state inside its completion signal, as start_detached does)" : ""));
+        }
     }
     q.enter_stop_mode([] { return true; });
     stop_runtime();
@@ -601,7 +626,7 @@ static Outcome run(tape_t const& tape)
     out.counters["depth"] = depth;
     out.counters["avoided"] = c.avoided;
     out.nontrivial = depth >= 3 && (has_nonvalue_leaf(*c.term) || has_async_shared(*c.term, false));
-    out.tags.push_back(c.terminal ? "terminal:sync_wait" : "terminal:receiver");
+    out.tags.push_back(c.terminal ? "terminal:sync_wait" : c.self_destroy ? "terminal:receiver_destroys_op_state" : "terminal:receiver");
     out.tags.push_back(std::string("completion:") + (got_kind == 0 ? "value" : got_kind == 1 ? "error" : got_kind == 2 ? "stopped" : "none"));
     std::function<void(Term const&)> walk = [&](Term const& x) {
         out.tags.push_back(std::string("node:") + node_names[x.node]);
